@@ -92,7 +92,7 @@ func main() {
 			printReplay(cs, cr, vs)
 		}
 		if cr.Crash == "" && (toCoq[i] || (len(vs) > 0 && nViol <= 20)) {
-			cf.Add(gallinaCase(cs, cr), cs)
+			cf.Add(gallinaCase(cs, cr, mode000), cs)
 		}
 		if i%397 == 3 {
 			res.Sample(map[string]interface{}{"family": cs.Family, "top": cs.Top, "mods": cs.Mods, "ops": cs.Ops[:min(4, len(cs.Ops))], "outcomes": cr.Outcomes[:min(4, len(cr.Outcomes))]})
